@@ -49,8 +49,8 @@ class Sampler:
         self.S = sympy
         P = rng.choice(PRIMES)
         self.s = Fraction(rng.randint(1, 4000), P)
-        self.w = Fraction(rng.randint(2, 9), rng.choice([5, 7, 11, 13]))
-        self.v = Fraction(rng.randint(2, 9), rng.choice([5, 7, 11, 13]))
+        self.w = Fraction(rng.choice([2, 3, 4, 6, 8, 9]), rng.choice([5, 7, 11, 13]))      # never 1
+        self.v = Fraction(rng.choice([2, 3, 4, 6, 8, 9]), rng.choice([5, 7, 11, 13]))
         self.u = rng.choice(UNIT)
         self.A = Fraction(rng.randint(1, 9), rng.randint(1, 5)) * rng.choice([1, -1])
         self.B = Fraction(rng.randint(1, 9), rng.randint(1, 5)) * rng.choice([1, -1])
@@ -113,7 +113,7 @@ class Sampler:
     def value(self, e, ssym, extra):
         """-> (re, im) Fractions, or None when the expression is outside what can be sampled exactly"""
         S = self.S
-        e = e.subs(extra)
+        e = e.subs({sy: v for sy in e.free_symbols for (nm, v) in extra.items() if sy.name == nm})
         bad = []
 
         def rep_exp(arg):
@@ -145,15 +145,15 @@ class Sampler:
             return None
         e = e.subs(ssym, self.rat(self.s))
         try:
-            e = S.nsimplify(S.expand(S.simplify(e) if e.has(S.Piecewise) else e))
-            re, im = S.expand(e).as_real_imag()
-            re, im = S.nsimplify(re), S.nsimplify(im)
+            e = S.expand(e)
+            re, im = e.as_real_imag()
+            if not (re.is_Rational and im.is_Rational):
+                e = S.cancel(S.together(e))
+                re, im = S.expand(e).as_real_imag()
         except Exception:
             return None
         if not (re.is_Rational and im.is_Rational):
-            re, im = S.cancel(re), S.cancel(im)
-            if not (re.is_Rational and im.is_Rational):
-                return None
+            return None
         return Fraction(int(re.p), int(re.q)), Fraction(int(im.p), int(im.q))
 
 
@@ -252,12 +252,15 @@ class Gen:
                 tx.append('Heaviside(%s)' % self.lin(1, -tau))
                 key['delay'] = 'zero' if tau == 0 else ('pos' if tau > 0 else 'neg')
         elif shape == 'product':
-            kinds = self.r([['tpow', 'trig'], ['tpow', 'exp', 'trig'], ['trig', 'trig'], ['tpow', 'exp']])
+            kinds = self.r([['tpow', 'trig'], ['tpow', 'exp', 'trig'], ['trig', 'trig'], ['trig', 'trig'], ['tpow', 'exp']])
             tk, tx = self.smooth_atoms(kinds)
+            key['trig_factors'] = kinds.count('trig')
+            key['has_step'] = False
             if rng.random() < 0.5:
                 tau = self.delay()
                 tk.append('step 1 %s' % fstr(-tau))
                 tx.append('Heaviside(%s)' % self.lin(1, -tau))
+                key['has_step'] = True
         elif shape == 'ustep':
             # explicit u(t) factor: removed by remove_heaviside
             tk, tx = self.smooth_atoms(self.r([['exp'], ['trig'], ['exp', 'trig'], ['tpow']]))
@@ -266,7 +269,7 @@ class Gen:
         elif shape == 'step':
             tk, tx = self.smooth_atoms(self.r([[], [], ['tpow'], ['exp'], ['tpow', 'exp']]))
             a = self.r([Fraction(1), Fraction(1), Fraction(2), Fraction(1, 2), Fraction(3)])
-            b = -self.delay() * a if rng.random() < 0.85 else self.delay()
+            b = -self.delay() * a            # non-negative delays only (the property's quantifier)
             tk.append('step %s %s' % (fstr(a), fstr(b)))
             tx.append('Heaviside(%s)' % self.lin(a, b))
             key['scaled'] = a != 1
@@ -281,6 +284,7 @@ class Gen:
             key['order'] = n
             key['at_origin'] = tau == 0
             key['scaled'] = a != 1
+            key['scaled_derivative'] = (a != 1 and n > 0)
         elif shape in ('fn', 'fnprod'):
             f = self.r(['rect', 'tri', 'ramp', 'rampstep'])
             a = self.r([Fraction(2), Fraction(3), Fraction(1, 2), Fraction(3, 2), Fraction(4), Fraction(1)])
@@ -291,7 +295,9 @@ class Gen:
                 tk, tx = [], []
             tk.append('%s %s %s' % (f, fstr(a), fstr(b)))
             tx.append('%s(%s)' % (f, self.lin(a, b)))
-            key.update({'fn': f, 'scale_is_one': a == 1, 'shift_is_zero': b == 0})
+            lo = {'rect': Fraction(-1, 2), 'tri': Fraction(-1), 'ramp': Fraction(0), 'rampstep': Fraction(0)}[f]
+            key.update({'fn': f, 'scale_is_one': a == 1, 'shift_is_zero': b == 0,
+                        'support_before_zero': (lo - b) / a < 0})
         elif shape == 'undef':
             sub = self.r(['func', 'func', 'funcexp', 'deriv', 'deriv', 'integ', 'convxy', 'convexp'])
             key['sub'] = sub
@@ -357,6 +363,9 @@ def run(chk, replay=None):
     drv = chk.get_driver()
     rng = chk.rng
     quick = chk.tier == 'quick'
+    import glob
+    for old in glob.glob(os.path.join(common.VERIF, 'replays', 'C09', '%d-*.json' % chk.seed)):
+        os.unlink(old)
 
     import sympy as S
     import lcapy
@@ -400,9 +409,23 @@ def run(chk, replay=None):
         Ye = S.sympify(YSIG[1], locals={'z': z})
         return X, Y, Xe, Ye, z, x, tt, ics
 
+    import signal
+
+    class SlowCase(Exception):
+        pass
+
+    def on_alarm(signum, frame):
+        raise SlowCase()
+    signal.signal(signal.SIGALRM, on_alarm)
+    budget = 15 if quick else 40      # seconds per Lcapy transform (SymPy integrate fall-backs can take minutes)
+
     def lcapy_value(e, smp, xs, zic):
         """Lcapy's transform of the lcapy expression e, sampled -> (re, im) | None ; raises on Lcapy error"""
-        r = e.laplace(zero_initial_conditions=zic).sympy
+        signal.alarm(budget)
+        try:
+            r = e.laplace(zero_initial_conditions=zic).sympy
+        finally:
+            signal.alarm(0)
         if r.has(S.Integral) or r.has(S.Limit):
             return 'unevaluated'
         X, Y, Xe, Ye, z, x, tt, ics = undef_subs(xs, zic)
@@ -419,7 +442,7 @@ def run(chk, replay=None):
         r = r.replace(X, lambda a: Xe.subs(z, a)).replace(Y, lambda a: Ye.subs(z, a))
         if r.has(S.Symbol('BAD')):
             return None
-        return smp.value(r, ssym, {S.Symbol('A'): smp.rat(smp.A)})
+        return smp.value(r, ssym, {'A': smp.rat(smp.A)})
 
     def ask_terms(terms, smp, xs, zic):
         """driver on every raw term -> (model_total, spec_total, branches) ; totals None when undefined"""
@@ -473,6 +496,10 @@ def run(chk, replay=None):
         del trace[:]
         try:
             v1 = lcapy_value(e, smp, xs, zic)
+        except SlowCase:
+            chk.case(canon, False)
+            chk.count('degenerate', 'lcapy-slow(>%ds)' % budget)
+            return
         except Exception as ex:   # noqa
             chk.case(canon, False)
             chk.count('degenerate', 'lcapy-error:' + type(ex).__name__)
@@ -493,6 +520,12 @@ def run(chk, replay=None):
             v2 = lcapy_value(lexpr(txt), smp, xs, zic)
             for u in rng.sample(unrelated, 2):
                 lexpr(u).laplace()
+            if has_undef:
+                # the same expression under the other value of zero_initial_conditions (part of the cache key)
+                try:
+                    lexpr(txt).laplace(zero_initial_conditions=not zic)
+                except Exception:   # noqa
+                    pass
             v3 = lcapy_value(lexpr(txt), smp, xs, zic)
         except Exception as ex:   # noqa
             v2 = v3 = ('error', type(ex).__name__)
@@ -548,22 +581,51 @@ def run(chk, replay=None):
     for f in ['rect', 'tri', 'ramp', 'rampstep']:
         for a in [Fraction(2), Fraction(1, 2), Fraction(1)]:
             fixed.append([('prod 1 %s %s 0' % (f, fstr(a)), '(1)*%s(%s)' % (f, Gen.lin(a, 0)),
-                           {'kind': 'fn', 'fn': f, 'scale_is_one': a == 1, 'shift_is_zero': True})])
-    fixed.append([('prod 1 delta 0 1 0', '(1)*DiracDelta(t)', {'kind': 'delta', 'order': 0, 'at_origin': True, 'scaled': False})])
+                           {'kind': 'fn', 'fn': f, 'scale_is_one': a == 1, 'shift_is_zero': True,
+                            'support_before_zero': f in ('rect', 'tri')})])
+    fixed.append([('prod 1 delta 0 1 0', '(1)*DiracDelta(t)', {'kind': 'delta', 'order': 0, 'at_origin': True, 'scaled': False, 'scaled_derivative': False})])
     fixed.append([('prod 1 exp -2 sin 3 1/2 step 1 -1', '(1)*exp((-2)*t)*sin(3*t + (1/2))*Heaviside(t + (-1))', {'kind': 'sincos', 'delay': 'pos'})])
+    fixed.append([('prod 1 sin 1 0 cos 3 0 step 1 -2', '(1)*sin(t)*cos(3*t)*Heaviside(t + (-2))',
+                   {'kind': 'product', 'trig_factors': 2, 'has_step': True})])
+    fixed.append([('prod 1 delta 1 2 0', '(1)*DiracDelta(2*t, 1)',
+                   {'kind': 'delta', 'order': 1, 'at_origin': True, 'scaled': True, 'scaled_derivative': True})])
+    fixed.append([('prod 1 rect 1 1/4', '(1)*rect(t + (1/4))',
+                   {'kind': 'fn', 'fn': 'rect', 'scale_is_one': True, 'shift_is_zero': False, 'support_before_zero': True})])
     fixed.append([('prod 1 cos 2 0 step 1 3/2', '(1)*cos(2*t)*Heaviside(t + (3/2))', {'kind': 'sincos', 'delay': 'neg'})])
+    import time
+    tshape = {}
+
+    def timed_case(terms, origin):
+        t0 = time.time()
+        one_case(terms, origin)
+        k = '+'.join(sorted(t[2]['kind'] for t in terms))
+        a = tshape.setdefault(k, [0, 0.0])
+        a[0] += 1
+        a[1] = round(a[1] + time.time() - t0, 2)
+    if replay:
+        # ./vcheck C09 --replay <file>: re-run the recorded raw term(s) only
+        import json
+        rp = json.load(open(replay if os.path.isabs(replay) else os.path.join(common.VERIF, replay)))
+        inp = rp.get('input', {})
+        if 'raw' in inp:
+            txt1 = inp['expr'][2:] if inp['expr'].startswith('A*') else inp['expr']
+            for _ in range(3):
+                timed_case([(inp['raw'], txt1, dict(rp.get('key', {'kind': 'replay'})))], 'replay')
+        fixed = []
+        n_cases = 0
     for terms in fixed:
-        one_case(terms, 'fixed')
+        timed_case(terms, 'fixed')
     # ---- 3b. generated
     for i in range(n_cases):
         nterm = rng.choice([1, 1, 1, 2, 2, 3])
         terms = [gen.term() for _ in range(nterm)]
         if sum(1 for t in terms if t[2]['kind'] == 'undef') > 1:
             terms = terms[:1]
-        one_case(terms, 'generated')
+        timed_case(terms, 'generated')
         if not quick:
-            one_case(terms, 'generated-second-point')
+            timed_case(terms, 'generated-second-point')
 
+    chk.coverage['time_by_shape'] = tshape
     # ---- 4. classification
     chk.coverage['correspondence']['samples_of_disagreement'] = disagreements[:5]
     if broken and counterexamples[0] == 0 and not chk.known_seen:
